@@ -298,7 +298,16 @@ def run(rep):
         ok, how, _ = xlayer.error_discipline(st[0])
         rep.check(ok and how.split(" ")[0] == "!=0", "R17.c", "stat/armodels.py", nm, "kernel error code (any non-zero value) raises", how, line=st[0].call.lineno)
         f = st[0].func
-        pargs = pq.call_arguments(f, st[0].call, list(st[0].shim.params))
+        helpers_ = {n.name: n for n in mod.tree.body if isinstance(n, ast.FunctionDef) and n.name not in ("armodel_sim", "armodel_residual")}
+
+        class _Inl(pq.PEval):
+            def __init__(self, *a, **k):
+                super().__init__(*a, **k)
+                self.inline = dict(helpers_)
+        try:
+            pargs = pq.call_arguments(f, st[0].call, list(st[0].shim.params), base=_Inl if helpers_ else pq.PEval)
+        except Exception:
+            pargs = pq.call_arguments(f, st[0].call, list(st[0].shim.params))
         plist = list(st[0].shim.params)
         okorder = plist[:4] == ["sim_mean", "sim_ini", "params", data_arg] or plist[:4] == ["sim_mean", "sim_ini", "params", plist[3]]
         okm = "sim_mean" in pargs and all(pq.same(v, "sim_mean") or any(t and pq.same(c, "sim_mean is None") for c, t in cnds)
@@ -318,6 +327,20 @@ def run(rep):
                     okini = okini and pq.same(ini_v, "sim_ini")
                 else:
                     okini = False
+        # positive refutation: the default is selected by the VALUE of the initial condition (truthiness, `or`, a comparison with a number)
+        byval = []
+        if "sim_ini" in pargs:
+            isini = lambda e: e == ('sym', 'sim_ini')
+            for cnds, v in pq.split_where(pargs["sim_ini"]):
+                for sub in pq.find(v, lambda e: isinstance(e, tuple) and e and e[0] in ('or', 'and') and any(isini(x) or (isinstance(x, tuple) and x and x[0] == 'call' and x[1] in ("float64", "float", "np.float64", "py.float") and any(isini(y) for y in x[2])) for x in e[1:])):
+                    byval.append(show(sub)[:60])
+                for c, _t in cnds:
+                    while isinstance(c, tuple) and c and c[0] == 'not':
+                        c = c[1]
+                    if isini(c) or (isinstance(c, tuple) and c and c[0] == 'cmp' and c[1] in ('==', '!=', '>', '<', '>=', '<=') and any(isini(x) for x in c[2:]) and any(isinstance(x, tuple) and x and x[0] == 'num' for x in c[2:])):
+                        byval.append("path condition " + show(c)[:50])
+        rep.check(not byval, "R17.c", "stat/armodels.py", nm, "the default initial value is selected by `sim_ini is None`, never by the value of sim_ini",
+                  f"{sorted(set(byval))[:2]}: an explicit sim_ini = 0 is replaced by the mean", line=f.lineno, firm=True)
         rep.check(okini, "R17.c", "stat/armodels.py", nm, "initial value defaults to the mean only when it is None (0 is a legitimate initial value)",
                   show(pargs.get("sim_ini", num(0)))[:120], line=f.lineno)
         bodies[nm] = f
